@@ -298,6 +298,23 @@ def abs_(a):
     return _np.absolute(_A(a))
 
 
+@override("isclose")
+def isclose(a, b, rtol=1e-05, atol=1e-08, equal_nan=False):
+    if not is_sym(a) and not is_sym(b):
+        return deep_wrap(_np.isclose(deep_strip(a), deep_strip(b), rtol=rtol, atol=atol, equal_nan=equal_nan))
+    a_, b_ = _symlists(a), _symlists(b)
+    r = _np.absolute(a_ - b_) <= (atol + rtol * _np.absolute(b_))   # numpy's documented formula (finite values)
+    return _unbox(r) if isinstance(r, _np.ndarray) else r
+
+
+@override("allclose")
+def allclose(a, b, rtol=1e-05, atol=1e-08, equal_nan=False):
+    r = isclose(a, b, rtol=rtol, atol=atol)
+    if isinstance(r, _np.ndarray):
+        return bool(_np.logical_and.reduce(_A(r).ravel()))
+    return bool(r)
+
+
 @override("size")
 def size(a, axis=None):
     if isinstance(a, (SR, SB)):
